@@ -16,7 +16,8 @@ value: `ok parsed refs | recipeError kind | stuck site | fuel`.
     out; on the code: RecursionError) — unlike macros there is no cycle check for include_file;
   * `checked_shape`: what `check` accepts satisfies the shape invariant `WF` the interpreter
     relies on, the version is 2, 3 or absent, every recorded `random_reference` names its target and
-    every option has a usable definition;
+    every option has a hashable name and a *declared* default, whatever its value (`merge_options`
+    after fix d8c74a2: `"default" in option`; a default of 0 / false / null / "" is a default);
   * `structural_before_rows`: a run whose validation does not succeed has written no row, whatever
     the interpreter is.
 -/
@@ -212,7 +213,7 @@ example :
     string, field names are non-empty strings, only top-level templates are `just_once`, `count` and
     `for_each` exclude each other, function names have at most one dot, and recursively so for
     nested templates, friends, arguments; the version is absent, 2 or 3; every `random_reference`
-    names its target; every option has a (truthy) default. -/
+    names its target; every option passes `merge_options` (see `accepted_options_declare_default`). -/
 theorem checked_shape (fuel : Nat) (env : Env) (doc : Y) (p : Parsed) (refs : List Ref)
     (h : check fuel env doc = .ok p refs) :
     (∀ s ∈ p.statements, WF true s ∧ isStatement s = true)
@@ -222,6 +223,37 @@ theorem checked_shape (fuel : Nat) (env : Env) (doc : Y) (p : Parsed) (refs : Li
   obtain ⟨h1, ⟨r2, h2⟩, ⟨r3, h3⟩⟩ := check_ok_inv h
   have hp := (parseRecipe_post fuel env doc).out p refs h1
   exact ⟨hp.1, hp.2, forR_ok_mem h3, forR_ok_mem h2⟩
+
+/-- what `merge_options` (repaired by d8c74a2) guarantees for an accepted recipe run without user
+    options: every option declaration has a hashable name and *declares* a default — the value of
+    the default is irrelevant -/
+theorem accepted_options_declare_default (fuel : Nat) (env : Env) (doc : Y) (p : Parsed)
+    (refs : List Ref) (h : check fuel env doc = .ok p refs) :
+    ∀ o ∈ p.options, (∃ v, lookup o "option" = some v ∧ v.hashable = true)
+      ∧ (lookup o "default").isSome = true := by
+  intro o ho
+  obtain ⟨rr, hr⟩ := (checked_shape fuel env doc p refs h).2.2.2 o ho
+  unfold checkOption at hr
+  split at hr
+  · rename_i v hv
+    split at hr
+    · cases hr
+    · rename_i hh
+      split at hr
+      · rename_i hd
+        exact ⟨⟨v, hv, by simpa using hh⟩, hd⟩
+      · cases hr
+  · cases hr
+
+/-- and conversely the value of the default does not matter: `0`, `false`, `null`, `""` are defaults
+    (before d8c74a2 these four recipes were "No definition supplied for option") -/
+example : ∀ d ∈ [Y.int 0, Y.bool false, Y.null, Y.str ""],
+    (check 20 noEnv (.list [ymap [("option", .str "n"), ("default", d)],
+      ymap [("object", .str "A")]])).isOk = true := by decide
+
+/-- an option without any `default` key is still a recipe error (DataGenNameError) -/
+example : check 20 noEnv (.list [ymap [("option", .str "n")], ymap [("object", .str "A")]])
+    matches .recipeError .name := by decide
 
 /-- non-vacuity: the sample recipe is accepted, with 3 statements, version 3, one recorded
     random_reference and one option -/
